@@ -10,6 +10,7 @@ mod sr;
 mod ty;
 mod st;
 mod sd;
+mod sk;
 mod util;
 
 #[global_allocator]
@@ -36,6 +37,7 @@ fn main() {
         "f32-sweep" => nm::f32_sweep(&args),
         "dom-replay" => dom::replay(&args),
         "sd-replay" => sd::replay(&args),
+        "sk-record" => sk::record(&args),
         "nest" => nest(&args),
         _ => { eprintln!("unknown command {cmd}"); 2 }
     };
